@@ -240,6 +240,11 @@ impl ScanStdin {
     } else {
       return Err(anyhow::anyhow!(EC::RuleNotSpecified));
     };
+    // rules that are turned off do not run, same as scanning files
+    let rules = rules
+      .into_iter()
+      .filter(|r| !matches!(r.severity, Severity::Off))
+      .collect();
     Ok(Self {
       rules,
       error_count: AtomicUsize::new(0),
@@ -270,7 +275,10 @@ impl StdInWorker for ScanStdin {
     processor: &P::Processor,
   ) -> Result<Vec<P::Processed>> {
     use ast_grep_core::Language;
-    let lang = self.rules[0].language;
+    let Some(first) = self.rules.first() else {
+      return Ok(vec![]);
+    };
+    let lang = first.language;
     let combined = CombinedScan::new(self.rules.iter().collect());
     let grep = lang.ast_grep(src);
     let path = Path::new("STDIN");
